@@ -24,6 +24,7 @@ mod c14;
 mod c15;
 mod c16;
 mod c17;
+mod c18;
 
 use util::*;
 
@@ -94,6 +95,7 @@ fn main() {
         "C15" => c15::run(&p, &mut rep),
         "C16" => c16::run(&p, &mut rep),
         "C17" => c17::run(&p, &mut rep),
+        "C18" => c18::run(&p, &mut rep),
         other => {
             eprintln!("no monitor for {}", other);
             std::process::exit(3);
